@@ -335,7 +335,8 @@ def _solver_exits(chk):
             chk.fail("C04.c", f"{ROOT}::solve_bracketed_brent[{ri.norm_stmt(st)} unguarded]", "a value is returned without any convergence test on the path")
             continue
         tnode, pol = guards[0]
-        cond = g.data(tnode)["ast"]
+        from ..cfg import resolve_guard
+        cond, pol = resolve_guard(fn, g.data(tnode)["ast"], pol)
         atoms = []
         def split(e):
             if isinstance(e, ast.BoolOp):
